@@ -416,6 +416,38 @@ def run(ctx):
     ctx.check(bool(g_t) and bool(under_t) and bool(under_f) and not (under_t & under_f), "C09-R3", "array:required-iff-below-minItems",
               "an item goes to the required vector exactly when its index is < min_items, otherwise to a different (optional) vector",
               "gen_json_array's required/optional split is no longer `i < min_items`", site=ga.where())
+    # number of explicit item slots: when maxItems is present it is exactly maxItems (a tuple prefix longer than maxItems is cut
+    # off), otherwise max(prefixItems.len(), minItems).  Accepted forms: `max_items.map_or(<default>, |m| m)` or a match on
+    # max_items whose Some arm yields the payload; anything else (e.g. prefix.len().max(..maxItems..)) lets the prefix win.
+    slots_ok, slots_desc = False, "no 0..N item loop found"
+    for bi, si, st in ga.statements():
+        r = st.get("r", {})
+        if st["s"] == "assign" and r.get("rv") == "agg" and isinstance(r.get("kind"), dict) and r["kind"].get("adt", "").endswith("range::Range") and len(r["ops"]) == 2 \
+                and F.op_const_int(r["ops"][0]) == 0:
+            e = ga.expr(r["ops"][1])
+            slots_desc = L.role(ga, r["ops"][1], depth=12)
+            if e[0] == "call" and e[1].endswith("Option::<T>::map_or") and len(e[2]) == 3:
+                src = L.root_local(ga, e[2][0]) if e[2][0][0] != "local" else e[2][0][1]
+                from_max = src is not None and any(
+                    F.op_place(p_["o"]) and F.place_fields(F.op_place(p_["o"]))[-1:] == [(AS, "max_items")]
+                    for (_, _, k_, p_) in ga.defs().get(src, []) if k_ == "assign" and p_["rv"] == "use")
+                ident = False
+                for c in L._closures_in(e[2][2]):
+                    cb_ = P.any_body(c)
+                    ds_ = cb_.defs().get(0, []) if cb_ is not None else []
+                    ident = len(ds_) == 1 and ds_[0][2] == "assign" and ds_[0][3]["rv"] == "use" and F.op_place(ds_[0][3]["o"]) == [2]
+                dflt = L.role(ga, ga.blocks[e[3]]["term"]["args"][1], depth=10) if len(e) > 3 else ""
+                slots_ok = from_max and ident and "max(" in dflt and ".prefix_items" in dflt and ".min_items" in dflt
+            else:
+                # match form: the bound is a local assigned in both arms of a switch on discr(max_items)
+                l_ = F.op_place(r["ops"][1])
+                ds_ = ga.defs().get(l_[0], []) if l_ else []
+                pay = [d for d in ds_ if d[2] == "assign" and d[3]["rv"] == "use" and F.op_place(d[3]["o"]) and any(
+                    isinstance(x, dict) and x.get("dc") == "Some" for x in F.op_place(d[3]["o"])[1:])]
+                slots_ok = len(ds_) == 2 and len(pay) == 1
+    ctx.check(slots_ok, "C09-R3", "array:slots-capped-by-maxItems", "item slots = maxItems when present, else max(prefixItems.len(), minItems)",
+              "gen_json_array computes the number of item slots as `%s`: with prefixItems longer than maxItems the array admits more than "
+              "maxItems items" % slots_desc, site=ga.where())
     go = ctx.body(JC + "::gen_json_object")
     bs = go.call_blocks(JC + "::bounded_sequence")
     ok = False
